@@ -37,6 +37,8 @@ type messageInfo struct {
 	flags        string
 	internalDate time.Time
 	seqNum       int
+	maxSeq       int   // highest sequence number of the mailbox ('*' in a sequence set)
+	maxUID       int64 // highest UID of the mailbox ('*' in a UID set)
 }
 
 func HandleSearch(deps ServerDeps, conn net.Conn, tag string, parts []string, state *models.ClientState) {
@@ -83,24 +85,64 @@ func HandleSearch(deps ServerDeps, conn net.Conn, tag string, parts []string, st
 		return
 	}
 
-	// Get all messages in the mailbox with their metadata
-	query := `
+	// Parse and evaluate search criteria
+	criteria := strings.Join(parts[searchStart:], " ")
+	matchingSeqNums, _, err := EvaluateSearch(deps, targetDB, state.SelectedMailboxID, criteria, charset)
+	if err != nil {
+		deps.SendResponse(conn, fmt.Sprintf("%s NO Search failed: %v", tag, err))
+		return
+	}
+
+	// Build response
+	if len(matchingSeqNums) > 0 {
+		var results []string
+		for _, seq := range matchingSeqNums {
+			results = append(results, strconv.Itoa(seq))
+		}
+		deps.SendResponse(conn, fmt.Sprintf("* SEARCH %s", strings.Join(results, " ")))
+	} else {
+		deps.SendResponse(conn, "* SEARCH")
+	}
+	deps.SendResponse(conn, fmt.Sprintf("%s OK SEARCH completed", tag))
+}
+
+// EvaluateSearch runs the search criteria against the messages of a mailbox and returns the matching
+// sequence numbers and UIDs in ascending order.
+func EvaluateSearch(deps ServerDeps, targetDB *sql.DB, mailboxID int64, criteria string, charset string) ([]int, []int64, error) {
+	messages, err := loadSearchMessages(targetDB, mailboxID)
+	if err != nil {
+		return nil, nil, err
+	}
+	if strings.TrimSpace(criteria) == "" {
+		criteria = "ALL"
+	}
+	tokens := parseSearchTokens(criteria)
+	var seqs []int
+	var uids []int64
+	for _, msg := range messages {
+		if matchesSearchCriteria(msg, tokens, charset, targetDB, deps) {
+			seqs = append(seqs, msg.seqNum)
+			uids = append(uids, msg.uid)
+		}
+	}
+	return seqs, uids, nil
+}
+
+// loadSearchMessages reads the metadata of every message of the mailbox in ascending UID order
+func loadSearchMessages(targetDB *sql.DB, mailboxID int64) ([]messageInfo, error) {
+	rows, err := targetDB.Query(`
 		SELECT mm.message_id, mm.uid, mm.flags, mm.internal_date,
 		       ROW_NUMBER() OVER (ORDER BY mm.uid ASC) as seq_num
 		FROM message_mailbox mm
 		WHERE mm.mailbox_id = ?
 		ORDER BY mm.uid ASC
-	`
-	rows, err := targetDB.Query(query, state.SelectedMailboxID)
+	`, mailboxID)
 	if err != nil {
-		deps.SendResponse(conn, fmt.Sprintf("%s NO Search failed: %v", tag, err))
-		return
+		return nil, err
 	}
 	defer func() { _ = rows.Close() }()
 
-	// Build list of messages with metadata
 	var messages []messageInfo
-
 	for rows.Next() {
 		var msg messageInfo
 		var flagsStr sql.NullString
@@ -116,22 +158,11 @@ func HandleSearch(deps ServerDeps, conn net.Conn, tag string, parts []string, st
 		}
 		messages = append(messages, msg)
 	}
-
-	// Parse and evaluate search criteria
-	criteria := strings.Join(parts[searchStart:], " ")
-	matchingSeqNums := evaluateSearchCriteria(messages, criteria, charset, targetDB, deps)
-
-	// Build response
-	if len(matchingSeqNums) > 0 {
-		var results []string
-		for _, seq := range matchingSeqNums {
-			results = append(results, strconv.Itoa(seq))
-		}
-		deps.SendResponse(conn, fmt.Sprintf("* SEARCH %s", strings.Join(results, " ")))
-	} else {
-		deps.SendResponse(conn, "* SEARCH")
+	for i := range messages {
+		messages[i].maxSeq = len(messages)
+		messages[i].maxUID = messages[len(messages)-1].uid
 	}
-	deps.SendResponse(conn, fmt.Sprintf("%s OK SEARCH completed", tag))
+	return messages, nil
 }
 
 // evaluateSearchCriteria evaluates search criteria against messages
@@ -218,7 +249,7 @@ func evaluateTokens(msg messageInfo, tokens []string, charset string, targetDB *
 
 		// Handle sequence set (numbers and ranges)
 		if isSequenceSet(token) {
-			if !matchesSequenceSet(msg.seqNum, token) {
+			if !matchesSequenceSet(msg.seqNum, token, msg.maxSeq) {
 				return false
 			}
 			i++
@@ -434,7 +465,7 @@ func evaluateTokens(msg messageInfo, tokens []string, charset string, targetDB *
 				return false
 			}
 			i++
-			if !matchesUIDSet(int(msg.uid), tokens[i]) {
+			if !matchesUIDSet(int(msg.uid), strings.ToUpper(tokens[i]), int(msg.maxUID)) {
 				return false
 			}
 			i++
@@ -491,50 +522,48 @@ func isSequenceSet(token string) bool {
 		return true
 	}
 	for _, ch := range token {
-		if ch != ':' && ch != '*' && (ch < '0' || ch > '9') {
+		if ch != ':' && ch != '*' && ch != ',' && (ch < '0' || ch > '9') {
 			return false
 		}
 	}
 	return len(token) > 0 && (token[0] >= '0' && token[0] <= '9' || token[0] == '*')
 }
 
-func matchesSequenceSet(seqNum int, set string) bool {
-	// Handle single number
-	if !strings.Contains(set, ":") && set != "*" {
-		num, err := strconv.Atoi(set)
-		return err == nil && num == seqNum
+// matchesSequenceSet reports whether number n is in the set: single numbers, ranges in either order and
+// comma lists; '*' stands for the largest number in use
+func matchesSequenceSet(n int, set string, max int) bool {
+	value := func(s string) (int, bool) {
+		if s == "*" {
+			return max, true
+		}
+		v, err := strconv.Atoi(s)
+		return v, err == nil && v >= 0
 	}
-
-	// Handle * (highest sequence number) - for now, just return true
-	if set == "*" {
-		return true
+	for _, part := range strings.Split(set, ",") {
+		bounds := strings.Split(part, ":")
+		switch len(bounds) {
+		case 1:
+			if v, ok := value(bounds[0]); ok && v == n {
+				return true
+			}
+		case 2:
+			a, okA := value(bounds[0])
+			b, okB := value(bounds[1])
+			if okA && okB {
+				if a > b {
+					a, b = b, a
+				}
+				if n >= a && n <= b {
+					return true
+				}
+			}
+		}
 	}
-
-	// Handle range
-	parts := strings.Split(set, ":")
-	if len(parts) != 2 {
-		return false
-	}
-
-	start, end := 0, 0
-	if parts[0] == "*" {
-		start = seqNum // Will match if seqNum is the highest
-	} else {
-		start, _ = strconv.Atoi(parts[0])
-	}
-
-	if parts[1] == "*" {
-		end = 999999 // Effectively infinity
-	} else {
-		end, _ = strconv.Atoi(parts[1])
-	}
-
-	return seqNum >= start && seqNum <= end
+	return false
 }
 
-func matchesUIDSet(uid int, set string) bool {
-	// Similar to sequence set but for UIDs
-	return matchesSequenceSet(uid, set)
+func matchesUIDSet(uid int, set string, max int) bool {
+	return matchesSequenceSet(uid, set, max)
 }
 
 func matchesHeaderOrBody(msg messageInfo, field string, searchStr string, charset string, targetDB *sql.DB, deps ServerDeps) bool {
